@@ -256,7 +256,10 @@ def rule_conc(filter_names=None):
             else:
                 o.check(True, who, "tile-template", "")
             for (tag, ok, sp_, msg) in tiles:
-                o.check(ok, who, "tile:" + tag, msg, sp_)
+                if ok == "undecided":
+                    o.undecide(who, "tile:" + tag, msg)
+                else:
+                    o.check(ok, who, "tile:" + tag, msg, sp_)
         # a sequential re-implementation of a parallel operation trivially satisfies the property, so the
         # floor only guards against the rule matching nothing at all
         fl = 1 if filter_names is None else 0
@@ -500,7 +503,64 @@ def tile_templates(crate, root):
             if ev["key"] in ("slice::chunks", "slice::chunks_mut") and len(ev["args"]) == 2:
                 dc = _chunk_def(crate, an, ev["args"][1])
                 out.append(("chunks-div-ceil", dc is not None, ev["span"], "chunks() size is not div_ceil(n, t)"))
+                # the chunks zipped with per-worker state: zip() stops at the shorter side, so the other side must have
+                # one item per chunk (t items when the chunk size is div_ceil(n, t): ceil(n / ceil(n / t)) <= t)
+                if dc is not None:
+                    for zev in an.events:
+                        if zev["k"] != "call" or zev["key"] != "core::iter::traits::iterator::Iterator::zip" or len(zev["args"]) != 2:
+                            continue
+                        sides = list(zev["args"])
+                        if ev["res"] not in sides:
+                            continue
+                        Y = sides[1] if sides[0] == ev["res"] else sides[0]
+                        if Y[0] == "call" and Y[1] in ("slice::chunks", "slice::chunks_mut", "slice::chunks_exact", "slice::chunks_exact_mut") \
+                                and len(Y[3]) == 2 and Y[3][1] == ev["args"][1]:
+                            continue        # two chunkings with the same chunk size
+                        L, lvl = _partner_len(crate, an, Y)
+                        if L is None:
+                            out.append(("zip-covers-chunks", "undecided", zev["span"], "the length of what the chunks are zipped with is not known"))
+                            continue
+                        t_ = dc[1]
+                        okz = L == t_ or (lvl is not None and _same_value(crate, lvl, L, t_))
+                        out.append(("zip-covers-chunks", okz, zev["span"], "the row chunks are zipped with a sequence that is not known to have one item "
+                                    "per chunk (t items for chunk size div_ceil(n, t)): zip() stops at the shorter side and the rows of the "
+                                    "remaining chunks are silently dropped"))
     return out
+
+
+def _partner_len(crate, an, Y):
+    """(length term, analysis it is expressed in) of the container iterated by Y (iter / iter_mut / into_iter over a local or a
+    container captured by reference)"""
+    from .core import mk_len, strip_ref
+    from .closures import capture_map
+    t = Y
+    while t[0] == "call" and t[3] and t[1] in ("slice::iter_mut", "slice::iter", "core::iter::traits::collect::IntoIterator::into_iter",
+                                               "core::ops::deref::DerefMut::deref_mut", "core::ops::deref::Deref::deref",
+                                               "alloc::vec::Vec::as_mut_slice", "alloc::vec::Vec::as_slice"):
+        t = t[3][0]
+    t = strip_ref(t)
+    if t[0] != "at" or t[2] is not None:
+        return None, None
+    R = t[1]
+    cm = capture_map(crate, an) if an.f["kind"] == "Closure" else None
+    if cm is not None:
+        for pr, cr in cm.regmap:
+            if cr == R:
+                pan = cm.pan
+                b, i = cm.site
+                from .closures import _vers_at
+                L = mk_len(("at", pr, None, _vers_at(pan, b, i).get(pr, ("e",)), ()), pan)
+                if not (L[0] == "len" and L[1][0] == "at" and L[1][1] == pr):
+                    return L, pan
+                vals = {mk_len(v, pan) for (var, ver), v in pan.term_of.items() if var == pr and v[0] == "call"}
+                vals = {v for v in vals if v[0] != "len"}
+                if len(vals) == 1:
+                    return next(iter(vals)), pan
+                return None, None
+    L = mk_len(t, an)
+    if L[0] == "len" and L[1] == t:
+        return None, None
+    return L, an
 
 
 def _param_is_step_item(crate, can, c, n):
